@@ -1083,6 +1083,18 @@ cfoldBCall(Foam bcall)
 	  default:
 		break;
 	}
+	/*
+	 * A float result that is not a finite number has no literal form in
+	 * generated C, Lisp or FOAM text: leave the operation to run time.
+	 */
+	if (foam != bcall &&
+	    ((foamTag(foam) == FOAM_SFlo &&
+	      !(foamToSFlo(foam) - foamToSFlo(foam) == 0)) ||
+	     (foamTag(foam) == FOAM_DFlo &&
+	      !(foamToDFlo(foam) - foamToDFlo(foam) == 0)))) {
+		foamFreeNode(foam);
+		foam = bcall;
+	}
 	if (foam != bcall)
 		for(i=0; i < nargs; i++) stoFree(argv[i]);
 	return foam;
